@@ -4,17 +4,37 @@
 (* SignalsOps and each finished emit is judged by the same contract (FirstBroken).        *)
 (*                                                                                        *)
 (* Events (recorded by vf/props/c14.py):                                                  *)
-(*   connect            s n h ws us ut k exc   ws = weak-argument ids, us = CONTENT of the *)
+(*   connect            s n h r cf ua ws us ut k exc                                      *)
+(*                                             <<h, r>> = the callback: function h, bound  *)
+(*                                             to receiver object r (0 = plain function);  *)
+(*                                             cf = the callback object handed over is the *)
+(*                                             one the caller keeps ("s") / `obj.h` fetched *)
+(*                                             afresh ("n"): NO clause reads it;           *)
+(*                                             ua = the deprecated user_arg (0 = None, any *)
+(*                                             other id = some value that is not None),    *)
+(*                                             ws = weak-argument ids, us = CONTENT of the *)
 (*                                             user-argument iterable when connect was    *)
-(*                                             called, ut = how it was handed over        *)
-(*   disconnect         s n h ws us ut exc     by arguments: names the descriptor <<h,ws,us>> *)
+(*                                             called, ut = how it was handed over; a      *)
+(*                                             connect may be made by a widget constructor *)
+(*                                             (Button(on_press=, user_data=)): via = "w"  *)
+(*   disconnect         s n h r cf ua ws us ut exc   by arguments: names the descriptor <<h,r,ua,ws,us>> *)
 (*   disconnect_by_key  s n k exc              k may be a key of a sender that is gone     *)
 (*   mutate             us                     the caller changed its own list: NOTHING happens *)
 (*   collect            w dead                 the application dropped weak argument w      *)
-(*   drop_sender        s dead_rc dead_gc kept the application dropped the sender in slot s *)
+(*   drop_sender        s dead_rc dead_gc kept own_cycles                                  *)
+(*                                             the application dropped the sender in slot s *)
 (*                                             (holding `kept` of its keys); a fresh sender *)
-(*                                             takes the slot                               *)
-(*   emit_begin / call / emit_end / drop                                                  *)
+(*                                             takes the slot; own_cycles = 1: senders of   *)
+(*                                             this kind (widgets) are reference cycles of  *)
+(*                                             their own, never connected they need the     *)
+(*                                             cycle collector too                          *)
+(*   emit_begin         s n id em              em = the emitted arguments (2000+id: the    *)
+(*                                             marker of emit id; 4000+s: the sender in    *)
+(*                                             slot s; 5000 / 5001: False / True)          *)
+(*   call               h r args emit ret      args as received: 1000+w weak argument w,   *)
+(*                                             0..999 user arguments, the emitted ones,    *)
+(*                                             3000+ua a user_arg value after them         *)
+(*   emit_end / drop                                                                      *)
 EXTENDS SignalsOps, Json, IOUtils
 
 Traces == JsonDeserialize(IOEnv.TRACE_FILE)
@@ -31,18 +51,19 @@ Init == /\ tid \in 1..Len(Traces)
         /\ conn = [p \in P |-> <<>>]
         /\ alive = {w \in 1..Traces[tid].nweak : TRUE}
         /\ stack = <<>>
-        /\ tag = <<>>          \* tag[k] = the descriptor <<h, ws, us>> connection k was made with (several connections may share it)
+        /\ tag = <<>>          \* tag[k] = the descriptor <<h, r, ua, ws, us>> connection k was made with (several connections may share it)
         /\ ok = TRUE
         /\ why = "-"
 
 AllEntries == UNION {{conn[p][j] : j \in 1..Len(conn[p])} : p \in P}
 KilledKeys(w) == {e.k : e \in {e \in AllEntries : HasWeak(e, w)}}
-\* A call is identified by the handler that ran and the weak and user arguments it received, i.e. by a DESCRIPTOR.
+\* A call is identified by the callback that ran (function and receiver) and the weak and user arguments and the user_arg
+\* it received, i.e. by a DESCRIPTOR.
 \* Connections made with identical arguments (same callback, weak and user arguments) share it and cannot be told apart by
 \* their calls, so a frame records the descriptors it called and the contract of a finished emit is evaluated per descriptor
 \* (FirstBrokenT): any attribution of calls to connections that satisfies the property is accepted, none is invented.
-TagOf(k) == IF k \in 1..Len(tag) THEN tag[k] ELSE <<0, <<>>, <<>>>>
-NoEntry == Entry(0, 0, <<>>, <<>>)
+TagOf(k) == IF k \in 1..Len(tag) THEN tag[k] ELSE <<0, 0, 0, <<>>, <<>>>>
+NoEntry == Entry(0, 0, 0, 0, <<>>, <<>>)
 Reach(f) ==         \* the connections this emit may know, in connection order
   f.snap \o SelectSeq(conn[<<f.s, f.n>>], LAMBDA e : e.k \notin Keys(f.snap))
 Lookup(f, d) ==     \* some connection with descriptor d that this emit may know
@@ -70,14 +91,16 @@ FirstBrokenT(f, ret) ==
 Map(seq, F(_)) == [j \in 1..Len(seq) |-> F(seq[j])]
 WeakPart(args) == Map(SelectSeq(args, LAMBDA a : a > 1000 /\ a < 2000), LAMBDA a : a - 1000)
 UserPart(args) == SelectSeq(args, LAMBDA a : a >= 0 /\ a < 1000)
-CallDesc(e) == <<e.h, WeakPart(e.args), UserPart(e.args)>>
-ExpectedArgs(ent, emitid) == Map(ent.ws, LAMBDA w : 1000 + w) \o ent.us \o <<2000 + emitid>>
+TailPart(args) == Map(SelectSeq(args, LAMBDA a : a > 3000 /\ a < 4000), LAMBDA a : a - 3000)
+CallDesc(e) == <<e.h, e.r, IF TailPart(e.args) = <<>> THEN NoUA ELSE TailPart(e.args)[1], WeakPart(e.args), UserPart(e.args)>>
+\* the argument list of a call, exactly: weak, user (as given at connect time), emitted, user_arg if one was given
+ExpectedArgs(ent, f) == Map(ent.ws, LAMBDA w : 1000 + w) \o ent.us \o f.em \o Map(UATail(ent.ua), LAMBDA u : 3000 + u)
 
 \* Which sentence a call breaks that matches no connection the emit may know (descriptor d, handler h)
 Unmatched(f, e, d) ==
-  LET mine == SelectSeq(Reach(f), LAMBDA c : c.h = e.h)              \* connections of this callback
+  LET mine == SelectSeq(Reach(f), LAMBDA c : c.h = e.h /\ c.r = e.r)  \* connections of this callback
   IN IF d \in Range(tag) THEN "disconnected_handler_never_called"    \* made once with exactly these arguments, but not connected (here, now)
-     ELSE IF \E j \in 1..Len(mine) : mine[j].us = d[3] /\ ~WeakAlive(mine[j], alive) THEN "dead_weak_arg_never_called"
+     ELSE IF \E j \in 1..Len(mine) : mine[j].us = d[5] /\ ~WeakAlive(mine[j], alive) THEN "dead_weak_arg_never_called"
      ELSE IF mine # <<>> THEN "weak_then_user_then_emit_args"        \* the callback is connected, but never with these arguments
      ELSE "disconnected_handler_never_called"
 
@@ -89,11 +112,12 @@ Judge(e) ==
          IF e.n \notin N
          THEN R(conn, alive, stack, IF e.exc = "NameError" THEN "-" ELSE "unregistered_name_rejected")
          ELSE IF e.exc # "" THEN R(conn, alive, stack, "connect_registered_name_accepted")
-         ELSE R([conn EXCEPT ![<<e.s, e.n>>] = Append(@, Entry(e.k, e.h, e.ws, e.us))], alive, NoteAdd(stack, e.k), "-")   \* tag' below
-    [] e.t = "disconnect" ->    \* by arguments: removes ONE connection, the first made with exactly <<h, ws, us>>; nothing if there is none
+         ELSE R([conn EXCEPT ![<<e.s, e.n>>] = Append(@, Entry(e.k, e.h, e.r, e.ua, e.ws, e.us))], alive, NoteAdd(stack, e.k), "-")   \* tag' below
+    [] e.t = "disconnect" ->    \* by arguments: removes ONE connection, the first made with exactly <<h, r, ua, ws, us>> (whichever object
+                                \* stands for the callback <<h, r>> this time); nothing if there is none
          IF e.n \notin N THEN R(conn, alive, stack, IF e.exc = "" THEN "-" ELSE "disconnect_unconnected_does_nothing") ELSE
          LET p == <<e.s, e.n>>
-             hit == FirstMatch(conn[p], e.h, e.ws, e.us)
+             hit == FirstMatch(conn[p], e.h, e.r, e.ua, e.ws, e.us)
          IN IF e.exc # "" THEN R(conn, alive, stack, "disconnect_unconnected_does_nothing")
             ELSE IF hit # 0 THEN R([conn EXCEPT ![p] = RemoveKey(@, hit)], alive, NoteDisc(stack, {hit}), "-")
             ELSE R(conn, alive, stack, "-")
@@ -113,9 +137,9 @@ Judge(e) ==
          IF stack # <<>> THEN R(conn, alive, stack, "drop_sender_during_emit") ELSE
          R([p \in P |-> IF p[1] = e.s THEN <<>> ELSE conn[p]], alive, stack,
            IF ~e.dead_gc THEN "machinery_keeps_sender_alive"
-           ELSE IF ~e.dead_rc THEN "machinery_keeps_sender_alive_until_cycle_gc" ELSE "-")
+           ELSE IF ~e.dead_rc /\ e.own_cycles = 0 THEN "machinery_keeps_sender_alive_until_cycle_gc" ELSE "-")
     [] e.t = "emit_begin" ->
-         R(conn, alive, Append(stack, [NewFrame(e.s, e.n, conn[<<e.s, e.n>>]) EXCEPT !.i = e.id]), "-")
+         R(conn, alive, Append(stack, [NewFrame(e.s, e.n, conn[<<e.s, e.n>>]) EXCEPT !.i = e.id, !.em = e.em]), "-")
     [] e.t = "call" ->
          IF stack = <<>> THEN R(conn, alive, stack, "call_outside_emit") ELSE
          LET f == stack[Len(stack)]
@@ -126,16 +150,17 @@ Judge(e) ==
          IN IF e.emit # f.i THEN R(conn, alive, stk, "call_belongs_to_current_emit")
             ELSE IF ent.k = 0 THEN R(conn, alive, stk, Unmatched(f, e, d))
             ELSE IF ~WeakAlive(ent, alive) THEN R(conn, alive, stk, "dead_weak_arg_never_called")
-            ELSE IF e.args # ExpectedArgs(ent, f.i) THEN R(conn, alive, stk, "weak_then_user_then_emit_args")
+            ELSE IF e.args # ExpectedArgs(ent, f) THEN R(conn, alive, stk, "weak_then_user_then_emit_args")
             ELSE R(conn, alive, stk, "-")
     [] e.t = "emit_end" ->
          IF stack = <<>> THEN R(conn, alive, stack, "emit_end_without_begin") ELSE
          LET f == stack[Len(stack)]
          IN R(conn, alive, SubSeq(stack, 1, Len(stack) - 1),
-              IF e.exc # "" THEN "emit_raised" ELSE IF e.id # f.i THEN "emit_nesting" ELSE FirstBrokenT(f, e.ret))
+              IF e.exc # "" THEN "emit_raised" ELSE IF e.id # f.i THEN "emit_nesting"
+              ELSE FirstBrokenT(f, IF e.obs = 1 THEN e.ret ELSE AnyTrue(f.rets)))   \* obs = 0: a widget emitted, nobody saw emit_signal() return
     [] e.t = "drop" ->
          R(conn, alive, stack, IF ~e.senders_dead THEN "machinery_keeps_sender_alive"
-                               ELSE IF ~e.senders_dead_rc THEN "machinery_keeps_sender_alive_until_cycle_gc"
+                               ELSE IF ~e.senders_dead_rc /\ e.own_cycles = 0 THEN "machinery_keeps_sender_alive_until_cycle_gc"
                                ELSE IF ~e.weak_dead THEN "machinery_keeps_weak_arg_alive" ELSE "-")
     [] OTHER -> R(conn, alive, stack, "no_action")
 
@@ -147,7 +172,7 @@ Step == /\ ok
            IN /\ conn' = r.conn /\ alive' = r.alive /\ stack' = r.stack
               /\ why' = r.why /\ ok' = (r.why = "-")
               /\ tag' = LET e == Traces[tid].ev[l + 1]
-                         IN IF e.t = "connect" /\ e.exc = "" /\ e.n \in N THEN Append(tag, <<e.h, e.ws, e.us>>) ELSE tag
+                         IN IF e.t = "connect" /\ e.exc = "" /\ e.n \in N THEN Append(tag, <<e.h, e.r, e.ua, e.ws, e.us>>) ELSE tag
 Spec == Init /\ [][Step]_vars
 Report == ok \/ PrintT(<<"REJECT", tid, l, why>>)
 =============================================================================
